@@ -10,8 +10,19 @@
 * correspondence with M-Follow (lean/DefconModel/Follow.lean): for operations on a layer's glyphs and components the
   model is started from the abstraction of the layer (names -> glyph objects, outlines, components and what they
   observe) and must predict which components post Component.BaseGlyphDataChanged and what they observe afterwards;
+* correspondence with M-OrderNotify (lean/DefconModel/OrderNotify.lean = M-GlyphOrder + the post of `_set_glyphOrder`):
+  for every operation that goes through the font or a layer (newGlyph, insertGlyph, del, a glyph renamed,
+  font.glyphOrder = ...) the model is started from the stored order and the layers' glyph names and must predict the
+  deliveries of Font.GlyphOrderChanged (old, new, stored value at delivery) and the stored order afterwards;
+* correspondence with M-Geom as C08 reads it (`(winding ...)` lines): for reverse() / clockwise = v on a contour of
+  move / line points with integer coordinates the model must predict `clockwise` before, "the area is zero",
+  `clockwise` after and the points after;
+* the getter table (which getter a notification's old / new value talks about) is data of the Lean model
+  (lean/DefconModel/NotifGetters.lean); the observers of c08_world are built from the harness's copy, which is
+  compared with the model's on every run (`(getter-table)`, first line of the fixed history);
 * `extract`: lean/DefconModel/Gen/NotifNames.lean (documented / posted names per class, statement-order
-  skeletons of every method that posts, holds or releases) regenerated from the AST on every run.
+  skeletons of every method that posts, holds or releases, the data keys of every postNotification) regenerated
+  from the AST on every run.
 """
 import copy
 import os
@@ -37,12 +48,19 @@ RULE = ("histories of 4-50 operations on a generated font (built in memory / loa
         "scripted scenarios at known positions (margins with and without vertical origin, undo of "
         "a delete, rejected insert of every kind of identifier clash, rename away and back, delete then re-create under the old name, clear-all, layer default/order/"
         "rename/delete, user hold brackets, edit-read-save, image and layer colour, contour reversal, dict items, "
-        "image set, font guidelines, a component whose base glyph's name changes hands: replaced by newGlyph / insertGlyph / "
+        "image set, one image file name through absent / present / scheduled for deletion / set again with the deleted "
+        "or other data, with and without a save in between; a font that stores a glyph order while glyphs are created, "
+        "renamed (also onto taken names), deleted (also the last copy across layers) and inserted over names; contours "
+        "without area (lone point, open and closed two-point contours, collinear points, symmetric figure eight / bow "
+        "tie, a path back over itself; about a tenth of all inserted contours) reversed and given a direction; "
+        "font guidelines, a component whose base glyph's name changes hands: replaced by newGlyph / insertGlyph / "
         "another glyph renamed onto it, deleted and re-created, renamed away and back - then edited) plus one fixed "
         "history that visits every recorded call site; every delivery is "
         "recorded by an early and a late observer that evaluate the getter inside the callback; relayed notifications "
         "(Component.BaseGlyphDataChanged, Layer.GlyphNameChanged, Layer.GlyphUnicodesChanged) are demanded whenever the "
-        "public API shows their trigger; non-trivial = at "
+        "public API shows their trigger, and so are Font.GlyphOrderChanged (whenever font.glyphOrder answers differently "
+        "after an operation than before it) and the ImageSet add / delete / change announcements (from what `in` and "
+        "`[]` answer before and after); non-trivial = at "
         "least one payload delivery AND one will delivery; distinct = distinct (font, history)")
 ASSUMPTIONS = [
     "under USER holds only the old value is judged against the values the getter had inside the bracket; 'value when "
@@ -60,6 +78,11 @@ ASSUMPTIONS = [
     "unreleased (the assignments and insertGlyph release it in a finally clause since 67bac07), the harness "
     "releases it after the failed call",
     "python asserts enabled (no -O)",
+    "Font.GlyphOrderChanged is demanded for operations that go through the font or its layers; a direct write into "
+    "font.lib (lib['public.glyphOrder'] = ..., lib.clear(), lib.update()) is an operation of the Lib object, for which "
+    "Font documents nothing: not judged",
+    "the image life cycle is judged on `name in images` and on the digest of the data `images[name]` answers (for an "
+    "image that is not loaded yet: the bytes of the file in the UFO, read without defcon)",
     "notifications sent while objects are CREATED by the operation (lazy loading, instantiateAnchor(dict), "
     "copyDataFromGlyph's new objects) have no 'before': only their new value is judged",
     "sentence 3 for Component.BaseGlyphDataChanged reads the class docstring's bare list as 'posted when the data of "
@@ -71,7 +94,11 @@ ASSUMPTIONS = [
     "C10's subject, not judged here",
 ]
 TRUSTED = [
-    "harness/c08_world.py: PAYLOAD / WILL tables say which public getter each notification talks about",
+    "which public getter each notification talks about: lean/DefconModel/NotifGetters.lean (proved against the data "
+    "keys of every postNotification of the sources and against the catalogue); harness/c08_world.py builds its "
+    "observers from its copy GETTERS (compared with the model's table on every run) by `getter_from` (attribute path "
+    "/ item access); the WILL table's membership observations (which container a will's subject enters or leaves) "
+    "stay in the harness",
     "harness/c08_model.py: abstraction of an object's state into the model's store (through getters; peeks at "
     "_image, _scheduledForDeletion, _shallowLoadedContours, layer._glyphs avoid triggering lazy creation / loading) and "
     "value tokens (equal token <=> Python ==); for M-Follow: what a component observes is read through the public "
@@ -81,8 +108,12 @@ TRUSTED = [
     "(receiver rooted at self/super, observation wiring excluded)",
     "facts the model takes as arguments because they live outside the object's store: duplicate-identifier / "
     "ownership rejections (computed by the harness from the incoming object's own identifiers - twice the same one "
-    "included - and the container's public `identifiers`), fontTools' fontinfo validation, zero-area contours, image "
-    "digests",
+    "included - and the container's public `identifiers`), fontTools' fontinfo validation, image digests; 'the "
+    "contour's area is zero' is such an argument too, but for contours of move / line points with integer coordinates "
+    "it is also computed by M-Geom from the points and compared (winding lines; `winding_payload_truth` proves the "
+    "entry right for every valid contour given the geometric value)",
+    "the image set's names scheduled for deletion are read from the private `_scheduledForDeletion` (no public API "
+    "shows them) for the model's pre-state; the direct oracle uses `in` / `fileNames` / `[]` only",
     "M-Follow is compared operation by operation from the implementation's own pre-state for: Glyph.name=, "
     "Layer.newGlyph / insertGlyph / __delitem__, insertComponent / removeComponent, Component.baseGlyph= and every "
     "other operation after which exactly one glyph's outline differs; operations that also attach or detach other "
@@ -1188,12 +1219,18 @@ def neighbourhood(case, step, rng):
                 yield dict(case, ops=prefix + [["set", tgt, attr, v], ["set", tgt, attr, v]])
     if kind in ("glyph", "anchor", "guideline", "component", "contour", "image"):
         g = ["glyph", tgt[1], tgt[2]]
-        for sc in ("margins", "undo-delete", "clear-all", "rename-back", "contours", "image"):
+        for sc in ("margins", "undo-delete", "clear-all", "rename-back", "contours", "image", "degenerate-contours"):
             sops = scenario(rng, sc)
             for o in sops:
                 if len(o) > 1 and isinstance(o[1], list) and o[1][0] in ("glyph", "contour", "image") and len(o[1]) >= 3:
                     o[1][1], o[1][2] = g[1], g[2]
             yield dict(case, ops=prefix + sops)
+    if kind in ("images", "image"):
+        for _ in range(3):
+            yield dict(case, ops=prefix + scenario(rng, "image-lifecycle"))
+    if kind in ("layer", "font", "glyph", "layers"):
+        for _ in range(3):
+            yield dict(case, ops=prefix + scenario(rng, "implicit-order"))
     for origin in ("memory", "disk", "saved"):
         if origin != case.get("origin"):
             yield dict(case, origin=origin, ops=prefix)
